@@ -152,17 +152,17 @@ DEFS += [
     flat('c04_table_in_ctx', [R(c('x'), ctx=cat(cset(rng('a', 'b'), rng('d', 'e'), rng('g', 'h'), rng('j', 'k'), rng('m', 'n'), rng('p', 'q'), rng('s', 't'), rng('v', 'w'), rng('y', 'z'),
                                                      rng('0', '4'), rng('6', '9')), c('!'))), R(c('x')), R(ANY)], ['C04'], N=3, m=1, unwind=12, tier='thorough', Nt=3),
     # a state with more than 8 range transitions AND character transitions on code points at the start / end / inside of those ranges
-    flat('c02_chars_vs_many_ranges', [R(plus(cset(rng('a', 'b'), rng('d', 'e'), rng('g', 'h'), rng('j', 'k'), rng('m', 'n'), rng('p', 'q'), rng('s', 't'), rng('v', 'w'), rng('y', 'z'), rng('0', '4'), rng('6', '9')))), R(s('b!')), R(s('w?')), R(s('0.')), R(s('k4'))], ['C02', 'C01'], N=3, m=1, unwind=12),
+    flat('c02_chars_vs_many_ranges', [R(plus(cset(rng('a', 'b'), rng('d', 'e'), rng('g', 'h'), rng('j', 'k'), rng('m', 'n'), rng('p', 'q'), rng('s', 't'), rng('v', 'w'), rng('y', 'z'), rng('0', '4'), rng('6', '9')))), R(s('b!')), R(s('w?')), R(s('0.'))], ['C02', 'C01'], N=2, m=1, Nt=3, unwind=12),
     # rule-set-local `let`s with the same name bound to different regexes, both used as right contexts
     multi('c04_local_lets', [
-        ('Init', [R(plus(cset(rng('a', 'b'))), 'return', ctx=var('term')), R(plus(cset(rng('a', 'b'))), 'return'), R(c('{'), 'switch', to='B'), R(cset(';', ':'), 'return')]),
-        ('B', [R(plus(cset(rng('a', 'b'))), 'return', ctx=var('term')), R(plus(cset(rng('a', 'b'))), 'return'), R(c('}'), 'switch', to='Init'), R(cset(';', ':'), 'return')]),
-    ], ['C04', 'C03'], N=3, m=2, set_lets={'Init': [('term', c(';'))], 'B': [('term', c(':'))]}),
+        ('Init', [R(c('a'), 'return', ctx=var('term')), R(c('a'), 'return'), R(c('{'), 'switch_return', to='B'), R(cset(';', ':'), 'return')]),
+        ('B', [R(c('a'), 'return', ctx=var('term')), R(c('a'), 'return'), R(c('}'), 'switch_return', to='Init'), R(cset(';', ':'), 'return')]),
+    ], ['C04', 'C03'], N=2, m=1, Nt=3, set_lets={'Init': [('term', c(';'))], 'B': [('term', c(':'))]}),
     # skipped text directly before the end of input, then a `$` rule / a failure that looks at the match start
-    flat('c10_skip_then_eof', [R(c(' '), 'skip'), R(EOF, 'return'), R(c('a'), 'return'), R(cat(c('('), c(')')), 'return')], ['C10', 'C05', 'C06'], N=2, m=3),
+    flat('c10_skip_then_eof', [R(c(' '), 'skip'), R(EOF, 'return'), R(c('a'), 'return'), R(cat(c('('), c(')')), 'return')], ['C10', 'C05', 'C06'], N=2, m=2, mt=3),
     # the Default-state constructors (`new`, `new_from_iter`) on a definition with a `$` rule in Init (empty input included)
-    flat('c14_new_from_iter', [R(EOF, 'return'), R(plus(cset(rng('a', 'z'))), 'return'), R(c(' '), 'skip')], ['C14'], N=2, m=2, via='new_from_iter'),
-    flat('c14_new_str', [R(EOF, 'return'), R(plus(cset(rng('a', 'z'))), 'return'), R(ANY, 'return')], ['C14'], N=2, m=1, via='new', width=True, unwind=10),
+    flat('c14_new_from_iter', [R(EOF, 'return'), R(plus(cset(rng('a', 'z'))), 'return')], ['C14'], N=2, m=1, via='new_from_iter'),
+    flat('c14_new_str', [R(EOF, 'return'), R(plus(cset(rng('a', 'z'))), 'return'), R(ANY, 'return')], ['C14'], N=1, m=1, Nt=2, via='new', width=True, unwind=8),
     # comment-like loop over a complemented class, shares its first character with an operator
     flat('c01_comment_loop', [R(cat(s('/*'), star(diff(ANY, c('*'))), s('*/')), 'return'), R(c('/'), 'return'), R(c('*'), 'return'), R(ANY, 'return')], ['C01', 'C02'], N=4, m=1, tier='thorough', Nt=5),
     # long literal sharing prefixes with shorter literals and an identifier class
